@@ -498,4 +498,23 @@ def preprocessAll (h : Handler) (api : List ApiDef) (entry : String) : Except Er
       | .error e => .error e
       | .ok st => if st.chain.isEmpty then .ok st.out else .error (.chain unfinishedErr)
 
+/-! ## the other public entry point, and the hand-over to the parser -/
+
+/-- `preprocess_fragment(input, name, ..)` = `preprocess(name, .., [(name, input)], Gen.fragmentDefines)`: the
+    include handler knows the fragment itself only (under its own name); `api` = the token lists the defines of
+    `Gen.fragmentDefines` lex to (the lexer is outside this model) -/
+def preprocessFragment (items : List SItem) (api : List ApiDef) (entry : String) : Except Err (List PTok) :=
+  preprocessAll (fun n => if n = entry then some items else none) api entry
+
+/-- `LexToken`: what the parser is given -/
+inductive LexTok where
+  | tok (t : Tok)
+  | eof
+  deriving DecidableEq, Repr, Inhabited
+
+/-- `prepare_tokens` (pinned token for token by `Gen.prepareKeepsNonBlank`): every token that is not
+    `is_whitespace()` is handed on, in order; then `Eof` -/
+def prepareTokens (out : List PTok) : List LexTok :=
+  (out.filter (fun t => !t.tok.isWhitespace)).map (fun t => LexTok.tok t.tok) ++ [.eof]
+
 end RsslVerif.Model.CondFile
